@@ -755,7 +755,13 @@ fn sub_do_op(w: &SubWorld, op: &Val) {
                 sub_src(w, peer),
                 Family::IPV4,
                 net,
-                Some(bgp::Nexthop::V4(nh_addr(peer as u32))),
+                // paths of every other key carry no next hop (RT-membership routes, API paths
+                // without one): the Adj-RIB-In view does not depend on it
+                if (op.at(2).u32() + op.at(3).u32() + op.at(4).u32()) % 2 == 1 {
+                    None
+                } else {
+                    Some(bgp::Nexthop::V4(nh_addr(peer as u32)))
+                },
                 w.attrs[op.at(5).usize()].clone(),
                 pl,
                 7,
